@@ -69,7 +69,9 @@ impl PropertyValue {
             30 => {
                 let length = reader.read_u32::<LittleEndian>()?;
                 let length = if length == 0 { 0 } else { length - 1 };
-                let mut bytes: Vec<u8> = Vec::with_capacity(length as usize);
+                // The length comes from the file: do not let it size the
+                // allocation (a short stream fails on the first missing byte).
+                let mut bytes: Vec<u8> = Vec::new();
                 for _ in 0..length {
                     bytes.push(reader.read_u8()?);
                 }
